@@ -482,6 +482,26 @@ func features(q *query, set *sampleSet, want *result) []string {
 				ref := t - sel.offset
 				if rng >= 0 {
 					lo := ref - rng
+					if len(set.cuts) == 2 && len(sr.points) > 0 {
+						// samples of this window in each of the three containers (two files + memtable)
+						n := [3]int{}
+						for _, p := range sr.points {
+							if p.t < lo || p.t > ref || isStale(p.v) {
+								continue
+							}
+							switch {
+							case p.t <= set.cuts[0]:
+								n[0]++
+							case p.t <= set.cuts[1]:
+								n[1]++
+							default:
+								n[2]++
+							}
+						}
+						if n[0] > 0 && n[1] > 0 && n[2] > 0 {
+							add("window:spans-3-records")
+						}
+					}
 					prev := 0.0
 					havePrev := false
 					for _, p := range sr.points {
@@ -553,14 +573,26 @@ func shrink(srv *ogServer, eng *promql.Engine, dir string, ps *plannedSet, q *qu
 			return false
 		}
 		defer srv.influx("", "DROP DATABASE "+db)
-		if err := srv.remoteWrite(db, set); err != nil {
-			return false
+		// the same layout as the failing set: the parts up to each cut flushed into a file of their own
+		set.cuts = ps.set.cuts
+		parts := set.parts(ps.variant)
+		for phase, part := range parts {
+			if part != nil {
+				if err := srv.remoteWrite(db, part); err != nil {
+					return false
+				}
+			}
+			if phase < 2 {
+				if acc := set.upTo(ps.variant, phase); acc != nil && part != nil {
+					if err := srv.waitVisible(db, acc); err != nil {
+						return false
+					}
+					_ = srv.flush()
+				}
+			}
 		}
 		if err := srv.waitVisible(db, set); err != nil {
 			return false
-		}
-		if ps.variant != 0 {
-			_ = srv.flush()
 		}
 		up, err := openUpstream(fmt.Sprintf("%s/%s", dir, db), eng, set)
 		if err != nil {
